@@ -671,6 +671,8 @@ func main() {
 		{*trDst, st.translate()},
 		{strings.TrimSuffix(*trDst, ".lean") + "Scan.lean", st.translateScan()},
 		{strings.TrimSuffix(*trDst, ".lean") + "Html.lean", st.translateHtml()},
+		{strings.TrimSuffix(*trDst, ".lean") + "Ui.lean", translateUi(loadUi(*repo))},
+		{strings.TrimSuffix(*trDst, ".lean") + "Roots.lean", st.translateRoots()},
 	} {
 		if old, err := os.ReadFile(g.path); err != nil || !bytes.Equal(old, []byte(g.text)) {
 			if err := os.WriteFile(g.path, []byte(g.text), 0o644); err != nil {
